@@ -13,10 +13,11 @@ CONSTANTS
   Faults = FALSE
   Full = FALSE
   DetOnly = FALSE
+  Wrong = "none"
 INIT Init
 NEXT Next
 VIEW View
 SYMMETRY Sym
 INVARIANTS TypeOK EncodingConsistent KeysWellPlaced PkIsPeek PeekNeverWrong PeekNeverAfterDeadline PeekBoundedStaleness
-PROPERTIES NeverWrong NeverAfterDelete NeverAfterDeadline NeverCorrupt ReadIsPeek NoAlias AddSemantics ReadYourWrites DeleteRemoves
+PROPERTIES NeverWrong NeverAfterDelete NeverAfterDeadline NeverCorrupt ReadIsPeek NoAlias AddSemantics ReadYourWrites DeleteRemoves StopIsInert
 CHECK_DEADLOCK FALSE
